@@ -17,8 +17,7 @@ import (
 
 // loopLookup resolves a source-level name at the end of a loop header block.
 // returnLookup: a local variable named in a postcondition. Only single-assignment locals are accepted (every debug
-// reference of the name denotes the same SSA value) whose definition dominates the return site, so the name means
-// the same value on every path reaching the site.
+// reference of the name denotes the same SSA value), so the name means the same value wherever it is defined.
 func (e *Exec) returnLookup(ret *ssa.BasicBlock) func(name string) (CV, bool) {
 	fn := e.fn
 	return func(name string) (CV, bool) {
@@ -45,11 +44,9 @@ func (e *Exec) returnLookup(ret *ssa.BasicBlock) func(name string) (CV, bool) {
 		if def == nil {
 			return CV{}, false
 		}
-		if vi, ok := def.(ssa.Instruction); ok {
-			if vi.Block() == nil || !vi.Block().Dominates(ret) {
-				return CV{}, false
-			}
-		}
+		// When the definition does not dominate the return site the name denotes the value on the paths through the
+		// definition and an arbitrary value elsewhere: the postcondition has to guard its use (e.g. by a ghost that
+		// only changes on those paths).
 		if _, has := e.regs[def]; !has {
 			if _, isC := def.(*ssa.Const); !isC {
 				return CV{}, false
